@@ -19,15 +19,17 @@ for mp in sorted(glob.glob(os.path.join(V, 'seeded', '*', 'meta.json'))):
     else:
         ded = 'all obligations discharged (bounded check alone)'
     rows.append('| `%s` | %s | %s | %s | %s | %s |' % (m['id'], m['breaks_property'], ', '.join(files).replace('mosromgr/', ''), need.replace('|', '/'), how, ded))
-nrow = {r: sum(1 for x in rows if x.startswith('| `' + ('C' if r == 1 else 'R%d' % r))) for r in (1, 2, 3, 4)}
+nrow = {r: sum(1 for x in rows if x.startswith('| `' + ('C' if r == 1 else 'R%d' % r))) for r in (1, 2, 3, 4, 5)}
 txt = '''## 10. Seeded changes and which checks catch them
 
-%d property-breaking changes were written by independent sub-agents in four rounds (%d + %d + %d + %d), each agent given
+%d property-breaking changes were written by independent sub-agents in five rounds (%d + %d + %d + %d + %d), each agent given
 only the text of a few properties and its own scratch worktree (nothing from /verif).  Round 1 asked for realistic
 single-site slips, round 2 for subtle / cooperating changes (two sites that each look fine, state reached by an
 earlier merge, particular relative positions), round 3 for plain-logic slips in simple code (wrong variable, `<`
 vs `<=`, a check moved after the first mutation, a dropped clause), round 4 for slips in the less obvious places
-(helpers of `utils/xml.py`, `MosElement`, the `MosFile` base class, readers, collection, S3, CLI, `inspect()`).  Each
+(helpers of `utils/xml.py`, `MosElement`, the `MosFile` base class, readers, collection, S3, CLI, `inspect()`), round 5
+for two cooperating sites, faults that need a multi-step history (an object re-used across merges or collections)
+and faults on error paths (state left behind, which exception type escapes).  Each
 change is confirmed by
 `tools/try_seeded_par.py` (round 1 first with `tools/try_seeded.py` on `/repo` itself): the patch applies to a
 scratch copy of `/repo`'s HEAD, the unedited test suite still passes there (196), the author's demonstration exits
@@ -87,6 +89,25 @@ What the misses of each round exposed, and what was strengthened:
   reference must never resolve to it); a carriage return in the merged text written with `-o` (`R4D_4`).
   `R4C_1` (`from_string` strips the text first) failed 278 obligations but had no concrete input at first:
   documents with white space, BOM, NBSP and blank lines before / after the root or the XML declaration added.
+* Round 5 (20 changes; every one was caught by at least one of the checks named by its author at first, 16 of 20
+  by the check of the *main* property; 14 of 20 by failed obligations, 6 as tool limits).  The four that the check of the main
+  property let through, and what was done: `R5D_4` / `R5C_1` (`MosReader.mos_object` remembers the restored object,
+  so two collections built from the same readers share one running order): caught under C13 / C18 only, because
+  the body proof of `mos_object` started from a hand-built reader without the new field (an `AttributeError` path
+  tagged C18).  The entry state now also carries every field the real `MosReader.__init__` initialises to `None`,
+  the contract got the clauses `reader_keeps_no_reference_to_the_restored_object` and
+  `restoring_changes_no_field_of_the_reader`, and all its clauses carry C09, C13 and C18 - both changes now fail
+  those two clauses in the C09 check.  `R5D_3` (`RunningOrderReplace.inspect` raises on an element without text, so
+  `mosromgr inspect` aborts): caught under C20 only; the CLI proof uses the caller-facing view of `inspect()`
+  ("prints, never raises"), so the never-raises obligations of the 25 `inspect` bodies now carry C19 and are part
+  of the C19 check.  `R5B_4` (`ItemDelete.merge` resolves first and removes afterwards; a repeated ID raises
+  `ValueError`, later IDs are never acted on): a tool limit (new loop); the stand-in reported the escaping
+  built-in exception under C12 / C05 only - it now also reports it under C06 (named elements not acted on, nothing
+  the library defines reported it).  `R5A_3` (`MetaDataReplace.merge` copies only the text of a childless target):
+  a tool limit (write to `Element.text`) without a scenario; carried metadata with attributes / children replacing
+  a text-only element, and empty elements replacing full ones, added to the stand-in.  `R5D_2` (`assert` instead
+  of `raise` in `_validate`, wrong only under `python -O`) is caught without further work because the engine gives
+  `assert` no exception semantics a caller may rely on (the obligation "mixed roIDs are rejected" fails).
 
 | id | breaks | file | needs to manifest | caught by | deductive part alone |
 |---|---|---|---|---|---|
@@ -121,7 +142,7 @@ lost proofs) pass 128 check runs with every function proved.  What remains out o
 introduces a genuinely new loop or moves a loop that carries an invariant into a new helper function (`RGB_4`,
 `RGD_6`; `extend` in a loop instead of `chain.from_iterable`, `RFC_5`) needs a new invariant / contract; the
 function is then reported as a tool limit and decided by the bounded check only.
-''' % (len(rows), nrow[1], nrow[2], nrow[3], nrow[4], len(rows), '\n'.join(rows))
+''' % (len(rows), nrow[1], nrow[2], nrow[3], nrow[4], nrow[5], len(rows), '\n'.join(rows))
 p = os.path.join(V, 'DESIGN.md')
 s = open(p).read()
 a = s.index('## 10. Seeded changes and which checks catch them')
